@@ -9,6 +9,7 @@ Chain: L4 every column insertion / removal updates pivotToColumnIndex_ on the sa
 import re
 
 from gsa import facts, ir, kinds, paths
+from rules import findrule
 from gsa.facts import Unit, rel, AnalysisBroken
 from gsa.report import Check
 
@@ -310,7 +311,8 @@ def run_row_kinds(chk, F, only=None, floor=150):
         fns, ROW_KIND_CONTAINERS, kinds_table=kt,
         name_kinds=[(r'rowIndex\d*', 'ID'), (r'cellIndex|cellID|faceID|pivot', 'ID')],
         receiver_maps={'mirrorMatrixU_': {'ID': 'POS'}}, check_returns=True,
-        extra_sigs={('get_pivot', 1): (['POS'], 'ID'), ('get_pivot', 0): ([], 'ID')})
+        extra_sigs={('get_pivot', 1): (['POS'], 'ID'), ('get_pivot', 0): ([], 'ID'),
+                    ('_get_real_row_index', 1): (['ID'], 'ID')})
     # functions whose declared return typedef does not carry the kind the documentation gives (a pivot is a row)
     ret_rows = ('get_pivot', '_get_real_row_index', 'get_column_with_pivot')
     ok = ROW_TABLE['row_kind_conflations_ok']
@@ -392,6 +394,9 @@ def run(tier, replay=None):
     run_position_dictionary(chk, F)
     run_counter_guards(chk, F)
     run_row_kinds(chk, F)
+    findrule.run(chk, F, ('Boundary_matrix.h', 'RU_matrix.h', 'base_pairing.h', 'ru_pairing.h', 'Chain_matrix.h',
+                          'chain_pairing.h', 'Id_to_index_overlay.h', 'Position_to_index_overlay.h'),
+                 ROW_TABLE['find_invariants'], 'C05', 10)
     run_identifier_enumeration(chk, F)
     chk.assumptions += ['clang 14 parser; template patterns', 'U is stored transposed for Z2: a column addition on R '
                         'is mirrored by add_to with exchanged indices or by one pushed entry']
